@@ -71,7 +71,7 @@ Section Agree.
 
   Lemma ety_text : forall e et, ety17 L target e = Some et -> DC.render_ety et = text_of L target c e.
   Proof.
-    intros e et H. unfold text_of. destruct e as [n| | |pkg name u ms|e|e|n e|k v|txt]; cbn [ety17] in H; try discriminate.
+    intros e et H. unfold text_of. destruct e as [n| | |pkg name u ms|e|e|n e|k v|txt|ap an ar]; cbn [ety17] in H; try discriminate.
     - inversion H. reflexivity.
     - destruct u; try discriminate. inversion H. cbn [PS.type_lit].
       destruct (bytes_eqb pkg target); reflexivity.
@@ -91,8 +91,9 @@ Section Agree.
       DC.field_stmt DC.all_fixed G [] (PS.f_name f) ft = Ok (s17, dep) /\
       stmt17 s18 = s17.
   Proof.
-    intros G f ft Hft Hag. unfold PS.field_stmt.
-    destruct (PS.f_ty f) as [n| | |pkg name u ms|e|e|n e|k v|txt] eqn:Et; cbn [fty17] in Hft; try discriminate.
+    intros G f ft Hft Hag. unfold PS.field_stmt, PS.field_stmt_gen. cbv zeta.
+    destruct (PS.f_ty f) as [n| | |pkg name u ms|e|e|n e|k v|txt|ap an ar] eqn:Et; cbn [fty17] in Hft; try discriminate;
+      cbn [PS.switch_type PS.unalias].
     - inversion Hft. do 4 eexists. split; [reflexivity|]. split; reflexivity.
     - inversion Hft. do 4 eexists. split; [reflexivity|]. split; reflexivity.
     - inversion Hft. rewrite Herr. do 4 eexists. split; [reflexivity|]. split; [apply PD.field_stmt_fixed_error|reflexivity].
@@ -132,15 +133,23 @@ Section Agree.
       match PS.f_ty f with
       | PS.TSlice _ => exists o, s = PS.SCopySlice (PS.f_name f) o
       | PS.TMap _ _ => exists o, s = PS.SCopyMap (PS.f_name f) o
+      | PS.TAlias _ _ _ => True      (* alias types are outside C17's model altogether: see C18_copy_alias_* *)
       | _ => s = PS.SAssign (PS.f_name f)
       end.
   Proof.
-    intros f b H. unfold PS.field_stmt.
-    destruct (PS.f_ty f) as [n| | |pkg name u ms|e|e|n e|k v|txt] eqn:Et; cbn [fty17] in H; try discriminate.
+    intros f b H. unfold PS.field_stmt, PS.field_stmt_gen. cbv zeta.
+    destruct (PS.f_ty f) as [n| | |pkg name u ms|e|e|n e|k v|txt|ap an ar] eqn:Et; cbn [fty17] in H; try discriminate;
+      cbn [PS.switch_type PS.unalias].
     - do 2 eexists. split; reflexivity.
     - destruct (PS.type_lit L target c (PS.TSlice e)) as [o i]. do 2 eexists. split; [reflexivity|]. eauto.
     - do 2 eexists. split; reflexivity.
     - destruct (PS.type_lit L target c (PS.TMap k v)) as [o i]. do 2 eexists. split; [reflexivity|]. eauto.
+    - destruct (PS.unalias ar) as [n| | |pkg name u ms|e|e|n e|k v|txt|bp bn br];
+        try (do 2 eexists; split; [reflexivity|exact I]).
+      + destruct b; [do 2 eexists; split; [reflexivity|exact I]|]. rewrite Herr. do 2 eexists; split; [reflexivity|exact I].
+      + destruct b; [do 2 eexists; split; [reflexivity|exact I]|].
+        destruct (PS.scan_methods ms (false, false, true)) as [[hc hi] ptr].
+        destruct (bytes_eqb pkg target && negb (PS.is_uiface u)); do 2 eexists; (split; [reflexivity|exact I]).
   Qed.
 
   (* ---- partialstruct's callbacks: the ONLY difference between the two uses of the helper ---- *)
@@ -149,7 +158,9 @@ Section Agree.
   Theorem callback_not_named : forall f,
     is_named_ty (PS.f_ty f) = false -> PS.field_stmt L target c true f = PS.field_stmt L target c false f.
   Proof.
-    intros f H. unfold PS.field_stmt. destruct (PS.f_ty f); cbn [is_named_ty] in H; try discriminate; reflexivity.
+    intros f H. unfold PS.field_stmt, PS.field_stmt_gen, PS.switch_type, is_named_ty in *. cbv zeta.
+    destruct (PS.unalias (PS.f_ty f)) eqn:Eu; try discriminate;
+      destruct (PS.f_ty f) eqn:Et; cbn [PS.unalias] in Eu; try discriminate Eu; reflexivity.
   Qed.
 
   (* ... and there the context it returns (HasDeepCopy, HasDeepCopyInto, PtrResultOrParam; InSamePkg = false, so no
@@ -158,7 +169,8 @@ Section Agree.
     is_named_ty (PS.f_ty f) = true ->
     PS.field_stmt L target c true f = PS.GOk (PS.SCallInto (PS.f_name f) PS.dc_into_name) [].
   Proof.
-    intros f H. unfold PS.field_stmt. destruct (PS.f_ty f); cbn [is_named_ty] in H; try discriminate; reflexivity.
+    intros f H. unfold PS.field_stmt, PS.field_stmt_gen, PS.switch_type, is_named_ty in *. cbv zeta.
+    destruct (PS.unalias (PS.f_ty f)) eqn:Eu; try discriminate; reflexivity.
   Qed.
 
   (* one retained field of the generated struct, callbacks included *)
@@ -272,7 +284,8 @@ Section Transfer.
     - intros f c0 args Hin. split; [eapply Hres; exact Hin|]. eapply Hcal. exact Hin.
     - exact Hdep.
     - cbn [app] in Hex. rewrite app_nil_r in Hex, Hsn, Hlo.
-      exists out, t1. unfold deep_copy_as_heap. rewrite zero_fields_same, Hex. cbn [bind].
+      exists out, t1. unfold deep_copy_as_heap, as_body. cbn [option_map DC.run_ptr_copy]. rewrite PDS.zero_struct.
+      unfold into_as. rewrite Hex. cbn [bind DC.run_ptr_copy].
       assert (Hs : DC.snapshot (h ++ t1) (DC.VStruct out) = DC.snapshot h (DC.VStruct fin)).
       { rewrite !PDS.snapshot_struct, Hsn. reflexivity. }
       assert (Hf : forall a, In a (DC.locs (DC.VStruct out)) -> List.length h <= a < List.length (h ++ t1)).
